@@ -136,6 +136,9 @@ func (s *Solver) define(t *Term) {
 	}
 }
 
+func (s *Solver) Push() { s.send("(push 1)\n") }
+func (s *Solver) Pop()  { s.send("(pop 1)\n") }
+
 // Assert adds t to the permanent assertion set of the current session.
 func (s *Solver) Assert(t *Term) {
 	if t.IsTrue() {
